@@ -159,6 +159,25 @@ Proof.
 Qed.
 Print Assumptions c09_line_witnesses.
 
+(* REUSED BUFFERS: read_record_buf into a RecordBuf that still holds the previous record (also the
+   record_bufs() iterator) returns what a fresh buffer returns, whatever the buffer held: the
+   model threads the previous record's sample vectors through parse_samples (clear every vector,
+   resize to the header's sample count, push) -- so the line theorems above also hold record by
+   record for a whole file.  (The lazy Record clears its text buffer at the start of read_record;
+   its reuse is covered by the `multi` oracle.) *)
+Theorem c09_reused_recordbuf_independent : forall prs_float prev h line,
+  read_eager_into prs_float prev h line = read_eager prs_float h line.
+Proof. exact reused_recordbuf_independent. Qed.
+Print Assumptions c09_reused_recordbuf_independent.
+
+(* the buffer state is really in the model: without the clearing step the previous values would
+   stay under a "." sample (the seeded-defect class the `multi` cases detect) *)
+Example c09_reused_buffer_state_matters :
+  let prev := [[Some (VInteger 7%Z)]] in
+  e_rows_into w_prs prev [FDef (NCount 1) TInteger] [dot] = Some [[Some (VInteger 7%Z)]] /\
+  e_rows_into w_prs (map (fun _ => []) prev) [FDef (NCount 1) TInteger] [dot] = Some [[]].
+Proof. split; reflexivity. Qed.
+
 (* FORMER DEFECT lazy-samples-dropped-format-missing (repaired, 6449b9b): samples without FORMAT keys
    are written ". . ."; the lazy record used to return no samples.  Now such records are inside
    rec_ok (no condition on the keys is left) and come back from both readers: an instance of
